@@ -14,6 +14,9 @@ META = {
             'carried by an EXTRACTOR\'s inventory bypass validation and tagging, and sortResults panics on >= 2 findings when one of those lacks an advisory — modelled (scanTail.panics), '
             'exercised by the stream, excluded from the oracle. Tie: the real Scan with 0..3 fake filesystem extractors over 1..3 in-memory roots, 0..2 fake standalone extractors and 0..4 '
             'fake detectors (constant finding lists and index-querying detectors; shared/distinct ids, equal/unequal bodies, missing advisory/id, nil entries, errors, cancellation, finding objects shared between detectors).',
+    'also': 'The same stream carries two clauses of other properties, exposed as run_findings_order(ctx) (C08: findings/statuses emitted in the documented order — '
+            'Properties/C08Findings.lean, ORDER_THEOREMS) and run_plugin_phases(ctx) (C10: no plugin of any phase starts after a cancellation, failure whenever work remained — '
+            'Properties/C10Plugins.lean, PHASES_THEOREMS); ./check C20 runs and audits both as well.',
     'note': 'Trusted: Lean kernel; slices.SortFunc contract (a sorted permutation); reflect.DeepEqual on advisories = structural equality (no NaN scores); Go harness and line protocol. '
             'Hypothesis: no detector cancels the context (otherwise later detectors are skipped by design).',
 }
@@ -24,8 +27,66 @@ THEOREMS = [NS + t for t in [
     'consistentB_iff']] + ['Scalibr.Index.' + t for t in ['new_getSpecific', 'new_getAllOfType', 'new_getAll', 'new_has', 'new_only']]
 
 
+COMPARE = ['_', 'st', 'err', 'calls', 'idx', 'idxsame', 'findset', 'fkeys', 'plugset', 'plugkeys', 'pk', 'mut', 'started', 'pst']
+
+# C08, clause "findings and statuses are emitted in the documented sorted order": Properties/C08Findings.lean
+ORDER_MODULE = 'Scalibr.Properties.C08Findings'
+ORDER_THEOREMS = [NS + t for t in ['C08_cmp_findings', 'C08_cmp_findings_fields', 'C08_cmp_status', 'C08_findings_sorted', 'C08_findings_sorted_keys',
+                                   'C08_findings_key_sequence', 'C08_findings_order_independent', 'C08_status_sorted', 'C08_status_name_sequence',
+                                   'C08_prefix_reference_first', 'C08_concatenated_key_differs']]
+# C10, clause "once cancelled … runs no further plugin, reporting failure whenever work remained": Properties/C10Plugins.lean
+PHASES_MODULE = 'Scalibr.Properties.C10Plugins'
+PHASES_THEOREMS = ['Scalibr.Phases.' + t for t in ['C10_plugins_one_loop', 'C10_plugins_stop', 'C10_plugins_failed_iff', 'C10_plugins_fail_if_work_remained',
+                                                    'C10_plugins_none_after_cancel', 'C10_plugins_failure_means_cancelled', 'C10_plugins_nocancel']]
+
+
+def _unhex(h):
+    if h in ('-', ''):
+        return ''
+    try:
+        return bytes.fromhex(h).decode('utf-8', 'backslashreplace')
+    except ValueError:
+        return '?' + h
+
+
+def _keys(s):
+    return [] if s in ('-', '', None) else ['(%r, %r)' % tuple(_unhex(x) for x in k.split('/')) if '/' in k else k for k in s.split(',')]
+
+
+def details(ps, fi, fm):
+    """the concrete observation behind a verdict"""
+    out = []
+    if 'findorder' in ps:
+        out.append('emitted (reference, extra) sequence %s; documented order %s' % (', '.join(_keys(fi.get('fkeys'))), ', '.join(_keys(fm.get('sfkeys')))))
+    if 'statusorder' in ps:
+        out.append('emitted status names %s; documented order %s' % ([_unhex(x) for x in fi.get('plugkeys', '-').split(',')], [_unhex(x) for x in fm.get('splugkeys', '-').split(',')]))
+    if any(p.startswith('ph-') for p in ps):
+        out.append('plugins started: [%s]; the specification allows exactly: [%s]; whole schedule: [%s]; scan status: %s' % (
+            fi.get('started'), fm.get('sstarted'), fm.get('sall'), fi.get('st')))
+    return (' — ' + ' | '.join(out)) if out else ''
+
+
+def phase_problems(case, fi, fm):
+    """`phases` cases: the implementation's started-plugin log and overall status against the specification"""
+    if 'sstarted' not in fm:
+        return []
+    if fi.get('_') == 'panic':
+        return ['panic']
+    out = []
+    if fi.get('started') != fm['sstarted']:
+        got, want = fi.get('started', '-').split(','), fm['sstarted'].split(',')
+        out.append('ph-extra' if len([x for x in got if x != '-']) > len([x for x in want if x != '-']) else 'ph-started')
+    if fm.get('sworkleft') == '1' and fi.get('st') != 'failed':
+        out.append('ph-notfailed')
+    if fm.get('smustfail') == '0' and fi.get('st') != 'ok':
+        out.append('ph-failed')
+    return out
+
+
 def problems(case, fi, fm):
     """where the IMPLEMENTATION's answer leaves the specification (computed by the Lean driver from the case)"""
+    if case.startswith('phases '):
+        return phase_problems(case, fi, fm)
     if fm.get('wf') != '1' or 'sst' not in fm:
         return []          # a detector cancelled the context (remaining detectors are skipped by design) / no spec available
     if fi.get('_') == 'panic':
@@ -42,23 +103,30 @@ def problems(case, fi, fm):
     dets = ','.join(x for x in fi.get('plug', '-').split(',') if x.startswith('det')) or '-'
     if dets != fm.get('sdet'):
         out.append('detstatus')
-    if fi.get('find') != fm.get('sfind'):
+    if fi.get('findset') != fm.get('sfind'):
         out.append('findings')
-    if fi.get('sorted') != '1' or fi.get('plugsorted') != '1':
-        out.append('unsorted')
+    if fi.get('fkeys') != fm.get('sfkeys'):
+        out.append('findorder')
+    if fi.get('plugkeys') != fm.get('splugkeys'):
+        out.append('statusorder')
     if fi.get('mut') != '0':
         out.append('mutated')
     return out
 
 
 TEXT = {
+    'ph-extra': 'a plugin was STARTED after the context had been cancelled (started-plugin log is longer than the specification allows)',
+    'ph-started': 'the started-plugin log differs from "everything up to and including the cancelling iteration, in schedule order"',
+    'ph-notfailed': 'plugins of the schedule were never started, yet the scan does not report failure',
+    'ph-failed': 'the scan reports failure although every iteration of the schedule ran',
     'panic': 'Scan panicked',
     'calls': 'the detectors were not each called exactly once in order',
     'index': 'the index handed to the detectors is not the filter of the extracted packages',
     'status': 'overall scan status differs from "failed iff advisories inconsistent"',
     'detstatus': 'detector status entries differ from "failed iff its Scan returned an error"',
     'findings': 'reported findings differ from the detectors\' findings tagged with their own detector (or findings were emitted although the advisories are inconsistent)',
-    'unsorted': 'findings / plugin statuses are not sorted',
+    'findorder': 'findings are not emitted in the documented order (advisory reference, then Extra, each compared bytewise)',
+    'statusorder': 'plugin statuses are not emitted in the documented order (plugin name, bytewise)',
     'mutated': 'the scan wrote into a finding object a detector (or extractor) handed out',
 }
 
@@ -73,27 +141,76 @@ def run(ctx):
                        'when one of them lacks an advisory; the model predicts these panics (scanTail.panics, C20_no_sort_panic needs "no extractor findings") and the oracle skips them',
                        'the order of packages handed to packageindex.New is the walk order (roots, files by name, extractors by configuration order): input of this model, subject of C01/C08',
                        'Extractor.ToPURL does not panic (C14)']
-    ctx.rule = ('case = (0..3 fake filesystem extractors, 1..3 in-memory roots with 0..3 files each, 0..2 standalone extractors, 0..4 detectors with 0..3 findings each or an index query). '
+    ctx.rule = ('both tiers: order = 4 prefix-related findings dealt to 3 detectors in every way x every detector listing order (1458 scans) + 18 scans with several roots/statuses; '
+                'phases = 6 schedule shapes x (no cancellation | cancelled before the scan | one canceller at every position x it returns nil/err/ctx.Err()) x the other plugins returning nil/err/ctx.Err(). '
+                'random: every 5th case is a phases case. case = (0..3 fake filesystem extractors, 1..3 in-memory roots with 0..3 files each, 0..2 standalone extractors, 0..4 detectors with 0..3 findings each or an index query). '
                 'thorough adds every list of <=3 entries over {2 ids x 2 bodies, no advisory, no id, nil} split over two detectors in every way x detector error. '
                 'non-trivial = at least one detector ran and returned a finding or the scan failed; distinct = distinct case lines')
-    ok, _ = ctx.lean_build(['Scalibr.Properties.C20', 'drv_c20'])
-    proofs_ok = ctx.audit(['Scalibr.Properties.C20'], THEOREMS)
+    ok, _ = ctx.lean_build(['Scalibr.Properties.C20', ORDER_MODULE, PHASES_MODULE, 'drv_c20'])
+    proofs_ok = ctx.audit(['Scalibr.Properties.C20', ORDER_MODULE, PHASES_MODULE], THEOREMS + ORDER_THEOREMS + PHASES_THEOREMS)
     if ctx.tier == 'thorough':
         proofs_ok = ctx.leanchecker('Scalibr.Properties.C20') and proofs_ok
     n = {'quick': 8000, 'thorough': 80000}[ctx.tier]
 
     def nontrivial(case, fi, fm):
-        return fm.get('scalls', '-') != '-' and (fi.get('find', '-') != '-' or fi.get('st') == 'failed')
+        return _nontrivial(case, fi, fm)
 
     def oracle(case, fi, fm):
         ps = problems(case, fi, fm)
-        return '; '.join(TEXT[p] for p in ps) if ps else None
+        return ('; '.join(TEXT[p] for p in ps) + details(ps, fi, fm)) if ps else None
 
     def classify(case, fi, fm):
-        return 'st=%s err=%s nocancel=%s consistent=%s exfindings=%s' % (fi.get('st', fi.get('_')), fi.get('err'), fm.get('wf'), fm.get('cons'), fm.get('exf'))
+        return _classify(case, fi, fm)
 
     lib.standard_stream(ctx, gen='c20gen', driver='drv_c20', gen_args=['-seed', str(ctx.seed), '-n', str(n), '-tier', ctx.tier],
-                        compare_keys=['_', 'st', 'err', 'calls', 'idx', 'idxsame', 'find', 'sorted', 'plug', 'plugsorted', 'pk', 'mut'],
-                        nontrivial=nontrivial, oracle=oracle, classify=classify, sample_every=1999)
+                        compare_keys=COMPARE, nontrivial=nontrivial, oracle=oracle, classify=classify, sample_every=1999)
     if not proofs_ok:
         lib.proof_failed(ctx, 'Scalibr.Properties.C20')
+
+
+def _nontrivial(case, fi, fm):
+    if case.startswith('phases '):
+        return fm.get('sall', '-') != '-' and fm.get('sstarted') != fm.get('sall')      # a cancellation that left work out
+    return fm.get('scalls', '-') != '-' and (fi.get('find', '-') != '-' or fi.get('st') == 'failed')
+
+
+def _classify(case, fi, fm):
+    if case.startswith('phases '):
+        return 'phases st=%s workleft=%s' % (fi.get('st', fi.get('_')), fm.get('sworkleft'))
+    return 'st=%s err=%s nocancel=%s consistent=%s exfindings=%s' % (fi.get('st', fi.get('_')), fi.get('err'), fm.get('wf'), fm.get('cons'), fm.get('exf'))
+
+
+def _borrowed(ctx, only, module, keep, n):
+    """run the part `only` of the c20gen stream for another property's check (ctx.prop is that property): builds the Lean
+    module + driver, replays the C20 witnesses of that kind first, judges only the problem classes in `keep`.
+    The caller audits the theorems (ORDER_THEOREMS / PHASES_THEOREMS) with ctx.audit([... , module], ...)."""
+    ok, _ = ctx.lean_build([module, 'drv_c20'])
+
+    def oracle(case, fi, fm):
+        ps = [p for p in problems(case, fi, fm) if p in keep]
+        return ('; '.join(TEXT[p] for p in ps) + details(ps, fi, fm)) if ps else None
+    args = ['-seed', str(ctx.seed), '-n', str(n), '-tier', 'quick', '-only', only]
+    if ctx.prop != 'C20':
+        args += ['-also', lib.VERIF + '/corpus/C20/witnesses.case']
+    st = lib.standard_stream(ctx, gen='c20gen', driver='drv_c20', gen_args=args, compare_keys=COMPARE,
+                             nontrivial=_nontrivial, oracle=oracle, classify=_classify, sample_every=499)
+    return ok and st
+
+
+def run_findings_order(ctx):
+    """C08, clause "packages, FINDINGS and STATUSES are emitted in the documented sorted order": the real scalibr.Scan with fake
+    detectors/extractors; findings and plugin statuses are read IN EMITTED ORDER and compared with the documented order (advisory
+    reference, then Extra / plugin name; bytewise, field by field) computed by the Lean driver. Every scan of 4 prefix-related
+    findings dealt to 3 detectors in every way x every detector listing order, plus random scans. Theorems: ORDER_THEOREMS in
+    ORDER_MODULE (Properties/C08Findings.lean)."""
+    return _borrowed(ctx, 'order', ORDER_MODULE, ('findorder', 'statusorder', 'findings', 'panic'), {'quick': 3000, 'thorough': 30000}[ctx.tier])
+
+
+def run_plugin_phases(ctx):
+    """C10, clause "once its context is cancelled [a scan] starts no extraction on any further file and runs no further plugin,
+    reporting failure whenever work remained", for the plugin loops filesystem.Run -> standalone.Run -> detector.Run of Scan: fake
+    plugins log their start, return nil / an error / ctx.Err() and may cancel; cancellation before the scan or inside EVERY position
+    of 6 schedule shapes (>= 2 standalone extractors and >= 2 detectors among them) x return values, plus random schedules.
+    Oracle: started-plugin log = specification, failure whenever a plugin was left out. Theorems: PHASES_THEOREMS in PHASES_MODULE
+    (Properties/C10Plugins.lean)."""
+    return _borrowed(ctx, 'phases', PHASES_MODULE, ('ph-extra', 'ph-started', 'ph-notfailed', 'ph-failed', 'panic'), {'quick': 3000, 'thorough': 30000}[ctx.tier])
